@@ -171,5 +171,15 @@ def check(run: Run) -> None:
                             f"`{norm(x, 70)}` writes the unit system's per-quantity table outside Quantity.__init__(self): an existing quantity - a catalogue constant "
                             f"included - can get a new value or dimension after import, so its value no longer is the reference value")
     run.floor("R5", nset, 2, "writers of the unit system's quantity tables")
+    # ... and Quantity.__init__ runs once per object, as part of construction: an explicit re-initialisation of an object built elsewhere rewrites the tables
+    for m in run.src.mods.values():
+        if not m.name.startswith(PKG):
+            continue
+        for x in ast.walk(m.tree):
+            if isinstance(x, ast.Call) and dotted(x.func) in ("Quantity.__init__", "SymQuantity.__init__"):
+                run.ob("R5", f"{m.name}:explicit-__init__")
+                run.violate("R5", f"{m.name}:explicit-init:{norm(x, 50)}", m, x,
+                            f"`{norm(x, 60)}` re-runs the quantity initialiser on an object it did not create: if that object carries the name of an existing quantity "
+                            f"(a restored / copied constant) the constant's entry in the unit system is overwritten")
     from .c03 import _i3_idgen
     _i3_idgen(run)
